@@ -130,16 +130,17 @@ func (p MembershipProof) DigestVerify(digest hashing.Digest, snapshot *Snapshot)
 		return false
 	}
 
-	hyperCorrect := p.HyperProof.Verify(digest, snapshot.HyperDigest)
-
-	if p.Exists {
-		if p.ActualVersion <= p.QueryVersion {
-			historyCorrect := p.HistoryProof.Verify(digest, snapshot.HistoryDigest)
-			return hyperCorrect && historyCorrect
-		}
+	// Only a claim of existence at a version not later than the queried one can
+	// be checked with these two proofs. Anything else (a claim of absence, or an
+	// actual version beyond the query version) used to be accepted on the hyper
+	// part alone, whose leaf does not bind the key: it is rejected now.
+	if !p.Exists || p.ActualVersion > p.QueryVersion {
+		return false
 	}
 
-	return hyperCorrect
+	hyperCorrect := p.HyperProof.Verify(digest, snapshot.HyperDigest)
+	historyCorrect := p.HistoryProof.Verify(digest, snapshot.HistoryDigest)
+	return hyperCorrect && historyCorrect
 }
 
 // Verify verifies a proof and answer from QueryMembership. Returns true if the
